@@ -7,6 +7,7 @@ import (
 	"context"
 	"errors"
 	"fmt"
+	"github.com/vipnode/vipnode/v2/pool/balance"
 	"math/big"
 	"strings"
 	"sync"
@@ -56,6 +57,7 @@ type harnessProvider struct {
 	subs            []ethereum.Subscription
 	ambiguousNext   bool
 	parkNextCall    *parkedCall
+	failCalls       bool // contract calls fail (the provider is down)
 	sent            int
 	recv0           int                   // logs the first subscription (the pool's original one) has received
 	q0              *ethereum.FilterQuery // its filter
@@ -104,6 +106,12 @@ func (p *harnessProvider) shutdown() {
 func (p *harnessProvider) PendingCallContract(ctx context.Context, call ethereum.CallMsg) ([]byte, error) {
 	var out []byte
 	var err error
+	p.mu.Lock()
+	failing := p.failCalls
+	p.mu.Unlock()
+	if failing {
+		return nil, errors.New("provider: 503 service unavailable")
+	}
 	if p.pendingIsLatest {
 		out, err = p.SimulatedBackend.CallContract(ctx, call, nil)
 	} else {
@@ -818,6 +826,99 @@ func TestC07LookupRace(t *testing.T) {
 		}
 		rec.Case(fmt.Sprintf("lookuprace|%s|%v|%v|%s|%s|%v", fee, min, pendingIsLatest, dep, cred, viaNode), exec, []string{"contract:lookup-race", fmt.Sprintf("contract:lookup-race:paid:%v", exec)}, func() interface{} {
 			return map[string]interface{}{"level": "contract, look-up racing a withdrawal", "fee": fee, "min": fmt.Sprint(min), "deposit": dep.String(), "credit": cred.String(), "lookup_through_node": viaNode, "received": received.String(), "errors": []string{fmt.Sprint(err1), fmt.Sprint(err2), fmt.Sprint(err3)}}
+		})
+	})
+}
+
+// TestC01ContractBilling - C01 with the balance store the pool command uses in contract mode: the real contract proxy
+// between the balance manager and the store driver. A keep-alive is billed while the wallet's deposit cannot be looked
+// up (provider down, nothing cached): whatever the keep-alive returns, credit is only moved.
+func TestC01ContractBilling(t *testing.T) {
+	rec := vt.For("C01")
+	rec.Rule("contract mode: the real balance manager bills over the real contract proxy (payment.ContractPayment on the simulated chain, memory driver underneath); a light client linked to a wallet (deposit on chain, events held back so that nothing is cached, or already looked up) sends keep-alives with 1-3 host peers (trial balances or a shared wallet) while the provider answers or is down; oracle after every keep-alive, failed or not: the stored credits of all parties sum to zero, and a keep-alive that returned nil moved exactly peers x floor(elapsed x price / interval); distinct by configuration")
+	check(t, func(rt *rapid.T) {
+		f := newChainFixture(rt, "", nil, rapid.Bool().Draw(rt, "pendingIsLatest"))
+		defer f.backend.Close()
+		defer f.provider.shutdown()
+		w := f.wallets[0]
+		cached := rapid.Bool().Draw(rt, "depositLookedUpBefore")
+		if !cached {
+			f.provider.setHold()
+		}
+		wo := bind.NewKeyedTransactor(w.key)
+		wo.Value = big.NewInt(int64(rapid.SampledFrom([]int{1, 5000, 1000000}).Draw(rt, "deposit")))
+		if _, err := f.contract.AddBalance(wo); err != nil {
+			rt.Fatalf("addBalance: %v", err)
+		}
+		f.backend.Commit()
+		client := store.Node{ID: store.NodeID(nodeIdent(0).nodeID), Kind: "geth"}
+		if err := f.st.SetNode(client); err != nil {
+			rt.Fatal(err)
+		}
+		if err := f.st.AddAccountNode(store.Account(w.addr), client.ID); err != nil {
+			rt.Fatal(err)
+		}
+		if cached {
+			if _, ok := f.waitProxyDeposit(w.addr); !ok {
+				rt.Fatalf("[setup failed] the proxy never saw the deposit")
+			}
+		}
+		nHosts := rapid.IntRange(1, 3).Draw(rt, "hosts")
+		var hosts []store.Node
+		for h := 0; h < nHosts; h++ {
+			n := store.Node{ID: store.NodeID(nodeIdent(1 + h).nodeID), IsHost: true, Kind: "geth", LastSeen: time.Now()}
+			if err := f.st.SetNode(n); err != nil {
+				rt.Fatal(err)
+			}
+			if rapid.Bool().Draw(rt, "hostOnWallet") {
+				if err := f.st.AddAccountNode(store.Account(f.wallets[1].addr), n.ID); err != nil {
+					rt.Fatal(err)
+				}
+			}
+			hosts = append(hosts, n)
+		}
+		price := big.NewInt(int64(rapid.SampledFrom([]int{1, 1000, 1000000}).Draw(rt, "price")))
+		mgr := balance.PayPerInterval(f.proxy, time.Second, price)
+		total := func() *big.Int {
+			sum := new(big.Int)
+			seen := map[store.Account]bool{}
+			for _, n := range append([]store.Node{client}, hosts...) {
+				b, err := f.st.GetNodeBalance(n.ID)
+				if err != nil {
+					rt.Fatal(err)
+				}
+				if b.Account != "" {
+					if seen[b.Account] {
+						continue
+					}
+					seen[b.Account] = true
+				}
+				sum.Add(sum, &b.Credit)
+			}
+			return sum
+		}
+		var hist []string
+		for k := rapid.IntRange(1, 4).Draw(rt, "keepAlives"); k > 0; k-- {
+			down := rapid.Bool().Draw(rt, "providerDown")
+			f.provider.mu.Lock()
+			f.provider.failCalls = down
+			f.provider.mu.Unlock()
+			node := client
+			node.LastSeen = time.Now().Add(-time.Duration(rapid.IntRange(1, 90).Draw(rt, "elapsedSeconds")) * time.Second)
+			_, err := mgr.OnUpdate(node, hosts)
+			hist = append(hist, fmt.Sprintf("keep-alive (provider down: %v, deposit cached: %v) -> err=%v", down, cached, err))
+			if t := total(); t.Sign() != 0 {
+				rt.Fatalf("contract mode: after a keep-alive of a wallet-linked client the stored credits sum to %s (credit was %s)\n  %s", t, map[bool]string{true: "created", false: "lost"}[t.Sign() > 0], strings.Join(hist, "\n  "))
+			}
+			if err == nil {
+				cached = true // the closing balance read went to the chain
+			}
+		}
+		f.provider.mu.Lock()
+		f.provider.failCalls = false
+		f.provider.mu.Unlock()
+		rec.Case(fmt.Sprintf("contractbilling|%v|%d|%s|%d", cached, nHosts, price, len(hist)), true, []string{"contract-billing"}, func() interface{} {
+			return map[string]interface{}{"level": "contract-mode billing", "hosts": nHosts, "price": price.String(), "history": hist}
 		})
 	})
 }
